@@ -2,6 +2,7 @@
   C13 — a failed real scrape is a failed scrape for Prometheus, with truthful health.
 -/
 import Kvass.Pins.Proxy
+import Kvass.Pins.Sidecar
 import Kvass.Props.C12
 
 namespace Kvass.Props.C13
